@@ -90,8 +90,9 @@ func TestVerifC02(t *testing.T) {
 		"power_loss_images_after_non_truncating_recovery_page": xs.imagesAfterNonTruncatingPage.Load(),
 		"power_loss_images_after_second_or_later_page_of_one_install": xs.imagesAfterLaterPage.Load(),
 		"power_loss_images_at_event_end": xs.imagesAtEventEnd.Load(), "power_loss_images_not_behind_reported_frontier": xs.imagesBehindNothing.Load(),
+		"observation_power_loss_lost_uncommitted_tail_reported_durable": xs.uncommittedTailLost.Load(),
 	} {
-		r.Count(k+"_incl_replays", v)
+		r.Count(k, v)
 	}
 	vwAssumptions(r)
 	vwCounters(r, st)
